@@ -425,11 +425,16 @@ CONSTANTS Scalars,     \* scalar values offered as arguments
           MaxLen, MaxSeq,
           InitDocs,    \* values the attribute may have when the behaviour starts (already committed)
           MaxBurst, MaxCommits,
-          Ops          \* operations offered (AllOps, or less for a particular run)
+          Ops,         \* operations offered (AllOps, or less for a particular run)
+          SrcDocs,     \* values of the *source* Json attribute nested containers are moved from
+          MoveFrom     \* where that source lives: subset of {"attr2", "obj2"}; {} = no moves and no flush
 
-VARIABLES doc, committed, dirty, alias, budget, ncommit, ev
-vars == <<doc, committed, dirty, alias, budget, ncommit, ev>>
-View == <<doc, committed, dirty, alias, budget, ncommit>>       \* ev adds no behaviour
+VARIABLES doc, committed, dirty, alias, budget, ncommit, ev,
+          src          \* value of the source attribute: o.data2 (MoveFrom "attr2") and o2.data of a second object
+                       \* ("obj2") both hold it; storing one of its containers elsewhere stores a tracked copy, so
+                       \* nothing in this machine ever changes it
+vars == <<doc, committed, dirty, alias, budget, ncommit, ev, src>>
+View == <<doc, committed, dirty, alias, budget, ncommit, src>>       \* ev adds no behaviour
 
 NoAlias == [on |-> FALSE, p |-> <<>>]
 AugOps  == {"iadd", "imul", "ior"}
@@ -485,7 +490,8 @@ Spend    == budget' = (IF MaxBurst = 0 THEN 0 ELSE budget - 1) /\ ncommit' = nco
 
 Ev(op, on, p, via, rel, a, out, ret, mut, chg, may) ==
     [op |-> op, on |-> on, p |-> p, via |-> via, rel |-> rel, i |-> a.i, j |-> a.j, k |-> a.k, x |-> a.x,
-     out |-> out, ret |-> ret, mut |-> mut, chg |-> chg, may |-> may]
+     out |-> out, ret |-> ret, mut |-> mut, chg |-> chg, may |-> may, mv |-> [on |-> FALSE, from |-> "", q |-> <<>>]]
+NoMove == [on |-> FALSE, from |-> "", q |-> <<>>]
 NoArgs == Act("", Null, Null, "", Null)
 
 Init == /\ doc \in InitDocs
@@ -494,10 +500,13 @@ Init == /\ doc \in InitDocs
         /\ alias = NoAlias
         /\ budget \in (IF MaxBurst = 0 THEN {0} ELSE 1 .. MaxBurst)
         /\ ncommit = 0
+        /\ src \in SrcDocs
         /\ ev = Ev("init", "session", <<>>, "attr", <<>>, NoArgs, "ok", doc, FALSE, FALSE, FALSE)
 
 (* one method call / operator / read on the container at path p *)
-Call(p, via, a) ==
+(* mv # NoMove: the argument a.x is not a literal but the container at path mv.q of the source attribute
+   (o.data[k] = o.data2[q], o.data.append(o2.data[q]) ...): a.x is its value, the source keeps it *)
+CallWith(p, via, a, mv) ==
     LET c  == GetAt(doc, p)
         r  == Apply(c, a)
         nd == SetAt(doc, p, r.c)
@@ -511,14 +520,36 @@ Call(p, via, a) ==
        /\ dirty' = (dirty \/ r.mut)
        /\ alias' = IF forget THEN NoAlias ELSE alias
        /\ committed' = committed
+       /\ src' = src
        /\ Spend
-       /\ ev' = Ev(a.op, c.t, p, via, IF via = "alias" /\ alias.p = p THEN <<>> ELSE p, a,
-                   r.out, r.ret, r.mut, ~Same(nd, doc), dirty \/ r.mut)
+       /\ ev' = [Ev(a.op, c.t, p, via, IF via = "alias" /\ alias.p = p THEN <<>> ELSE p, a,
+                    r.out, r.ret, r.mut, ~Same(nd, doc), dirty \/ r.mut) EXCEPT !.mv = mv]
+Call(p, via, a) == CallWith(p, via, a, NoMove)
+
+(* storing a nested container of the source (or the whole source value when it is flat) into the top container
+   through the calls that take the value as a direct argument *)
+MovablePaths == ChildPaths(src) \cup (IF Flat(src) THEN {<<>>} ELSE {})
+MoveActs(c, x) ==
+    LET all == IF c.t = "list"
+               THEN {Act("setitem", I(n), Null, "", x) : n \in 0 .. Len(c.v) - 1}
+                    \cup {Act("append", Null, Null, "", x)} \cup {Act("insert", I(n), Null, "", x) : n \in {0, 1}}
+               ELSE {Act(o, Null, Null, k, x) : o \in {"setitem", "setdefault"}, k \in Keys}
+    IN {a \in all : Fits(Apply(c, a).c)}
+Move == \E from \in MoveFrom : \E q \in MovablePaths : \E via \in Vias(<<>>) : \E a \in MoveActs(doc, GetAt(src, q)) :
+            CallWith(<<>>, via, a, [on |-> TRUE, from |-> from, q |-> q])
+
+(* flush(): the pending UPDATE is sent, nothing is committed; the machine's state does not change *)
+Flush ==
+    /\ MoveFrom # {}
+    /\ MayCall
+    /\ UNCHANGED <<doc, committed, dirty, alias, src>>
+    /\ Spend
+    /\ ev' = Ev("flush", "session", <<>>, "attr", <<>>, NoArgs, "ok", doc, FALSE, FALSE, dirty)
 
 TakeAlias(p) ==
     /\ MayCall
     /\ alias' = [on |-> TRUE, p |-> p]
-    /\ UNCHANGED <<doc, committed, dirty>>
+    /\ UNCHANGED <<doc, committed, dirty, src>>
     /\ Spend
     /\ ev' = Ev("alias", GetAt(doc, p).t, p, "attr", p, NoArgs, "ok", GetAt(doc, p), FALSE, FALSE, dirty)
 
@@ -530,6 +561,7 @@ Sync(op) ==
     /\ committed' = doc
     /\ dirty' = FALSE
     /\ doc' = doc
+    /\ src' = src
     /\ alias' = IF op = "reopen" THEN NoAlias ELSE alias
     /\ budget' \in (IF MaxBurst = 0 THEN {0} ELSE 1 .. MaxBurst)
     /\ ncommit' = (IF MaxCommits = 0 THEN 0 ELSE ncommit + 1)
@@ -538,6 +570,7 @@ Sync(op) ==
 Next == \/ \E p \in ContPaths(doc) : \E via \in Vias(p) :
               \E o \in Ops : \E a \in ActsOf(o, GetAt(doc, p), p) : Call(p, via, a)
         \/ \E p \in ContPaths(doc) : TakeAlias(p)
+        \/ Move \/ Flush
         \/ Sync("commit")
         \/ Sync("reopen")
 
@@ -557,6 +590,7 @@ NextByOp ==
         \/ Op("getitem") \/ Op("getslice") \/ Op("len") \/ Op("iter") \/ Op("copy") \/ Op("contains") \/ Op("count")
         \/ Op("get") \/ Op("getd") \/ Op("items")
         \/ \E p \in ContPaths(doc) : TakeAlias(p)
+        \/ Move \/ Move \/ Flush                  \* (listed twice: drawn as often as two of the calls)
         \/ Sync("commit")
         \/ Sync("reopen")
 
@@ -583,6 +617,7 @@ TypeOK         == WellFormed(doc) /\ WellFormed(committed) /\ dirty \in BOOLEAN
 CleanIsSaved   == ~dirty => Same(committed, doc)                 \* nothing can be lost while the object is not marked
 AliasValid     == alias.on => alias.p \in ContPaths(doc)
 
+SourceKept     == [][Same(src', src)]_vars                  \* moving a container out of the source never changes the source
 IsSync(e)      == e.op \in {"commit", "reopen"}
 MutationMarks  == [][ev'.mut => dirty']_vars                                      \* every mutation sets dirty
 ReadsArePure   == [][(~ev'.mut /\ ~IsSync(ev')) => (Same(doc', doc) /\ Same(committed', committed) /\ dirty' = dirty)]_vars   \* reads never do
@@ -617,6 +652,14 @@ Vals1(sc, keys, n) == sc \cup ListsOver(sc, n) \cup DictsOver(keys, sc)
 DocsOver(sc, keys, inner, n) == ListsOver(Vals1(sc, keys, inner), n) \cup DictsOver(keys, Vals1(sc, keys, inner))
 
 OpsNoSetSlice == AllOps \ {"setslice"}
+SrcNone      == {L(<<>>)}
+SrcJson      == {D(<<KV("a", L(<<I(1), I(2)>>)), KV("b", D(<<KV("a", I(1))>>))>>), L(<<L(<<I(2)>>), D(<<>>)>>)}
+SrcOne       == {D(<<KV("a", L(<<I(1)>>))>>)}
+NoMoves      == {}
+MovesBoth    == {"attr2", "obj2"}
+OpsMove      == {"append", "len"}
+DocsMove     == {D(<<KV("a", I(1))>>)}
+DocsMove2    == {D(<<KV("a", I(1))>>), L(<<I(1)>>)}
 DocsMC0      == DocsOver(ScalarsOne, KeysA, 1, 1)
 DocsMC1      == DocsOver(ScalarsOne, KeysA, 1, 2)
 DocsMC2      == DocsOver(ScalarsTwo, KeysAB, 1, 1) \cup DocsOver(ScalarsOne, KeysA, 2, 2)
